@@ -81,6 +81,32 @@ Example C06_domain_inhabited :
           a_owned := Some [(0, 900); (1, 950)] |}.
 Proof. vm_compute. split; reflexivity. Qed.
 
+
+(* ---- "... the failure is reported so the assignment is retried" ----
+   [retry] models retryAssignPartitions: one attempt per ticker tick until success or revocation.  For every
+   sequence of broker behaviours: exactly the prescribed number of attempts is made (one more after every
+   failure, none after a success or after the revocation); every attempt but the last failed and handed nothing
+   to the recovery consumer; the decision procedure for retry scenarios accepts the model on every input. *)
+Theorem C06_retried_until_success_or_revocation : forall cfg parts atts cancel,
+  length (retry cfg parts atts cancel) = expected_attempts parts atts cancel.
+Proof. exact retry_length. Qed.
+Theorem C06_attempt_fails_iff_broker_fails : forall cfg parts a,
+  a_err (assign cfg parts (at_com a) (at_wms a) (at_fail a)) = attempt_fails parts a.
+Proof. exact assign_err_iff_fails. Qed.
+Theorem C06_only_last_attempt_can_succeed : forall cfg parts atts cancel pre r post,
+  retry cfg parts atts cancel = pre ++ r :: post -> post <> [] -> a_err r = true /\ a_owned r = None.
+Proof. exact retry_only_last_succeeds. Qed.
+Theorem C06_retry_spec_sound : forall i, spec_c06_retry i (model_robs i) = [].
+Proof. exact spec_c06_retry_sound. Qed.
+Example C06_retry_example :
+  let cfg := {| maxlag := 100; recov := true; maxrec := 50 |} in
+  map a_err (retry cfg [0] [ {| at_com := CErr; at_wms := []; at_fail := false |};
+                             {| at_com := COk [(0, 10)]; at_wms := [WErr]; at_fail := false |};
+                             {| at_com := COk [(0, 10)]; at_wms := [WOk 0 1000]; at_fail := false |};
+                             {| at_com := CErr; at_wms := []; at_fail := false |} ] 9)
+  = [true; true; false].
+Proof. vm_compute. reflexivity. Qed.
+
 Print Assumptions C06_assign_closed_form.
 Print Assumptions C06_start_bounds.
 Print Assumptions C06_start_closed.
@@ -90,3 +116,7 @@ Print Assumptions C06_broadcasts.
 Print Assumptions C06_error_aborts.
 Print Assumptions C06_no_overflow.
 Print Assumptions C06_spec_sound.
+Print Assumptions C06_retried_until_success_or_revocation.
+Print Assumptions C06_attempt_fails_iff_broker_fails.
+Print Assumptions C06_only_last_attempt_can_succeed.
+Print Assumptions C06_retry_spec_sound.
